@@ -3,6 +3,7 @@ package main
 import (
 	"go/ast"
 	"go/token"
+	"golang.org/x/tools/go/cfg"
 )
 
 func init() { register("C18", checkC18, "./db19/stor/...") }
@@ -85,6 +86,18 @@ func checkC18(c *Ctx) string {
 		c.Floor(r2, nret, 1, "value returns in Alloc")
 		c.Obl(r2, "Alloc: falling out of the retry loop does not return", p.Pos(alloc.Decl), nret == len(res.Returns),
 			"Alloc has a return without values / implicit return")
+		// the chunk number compared with is the one loaded BEFORE the reservation: a load made after
+		// size.Add can already show the next chunk, whose cursor extend() is about to reset
+		fl2 := &Flow{P: p, Node: Labeler(evAdd, evLoadAC), BlockEntry: func(fs *FuncSrc, b *cfg.Block) []string {
+			if b.Kind == cfg.KindRangeBody || b.Kind == cfg.KindForBody {
+				return []string{"-size.Add"}
+			}
+			return nil
+		}}
+		for _, s := range fl2.Analyze(alloc).Of("allocChunk.Load") {
+			c.Obl(r2, "Alloc: allocChunk is loaded before the reservation of the same attempt, never after it", p.Pos(s.Node), !s.Before.Has("size.Add"),
+				"allocChunk is loaded after size.Add in the same attempt: a range reserved beyond the old chunk can be accepted against the already advanced chunk number while extend() resets the cursor, and is handed out twice")
+		}
 		// extend is called only on the mismatch edge
 		for _, s := range res.Of("extend") {
 			c.Obl(r2, "Alloc: extend only after a failed chunk check", p.Pos(s.Node), s.Before.Has("@endChunk!=allocChunk"), "")
